@@ -150,8 +150,8 @@ inductive WriteRes (V : Type) where
   deriving Repr
 
 /-- write wrapper: `validate(value)`, check functions, `write_<p>`, `validate(result)`; any exception
-propagates and nothing is announced.  Quirk kept: when `write_<p>` returns `None` the *unvalidated*
-argument is announced (line 189: `new_value = value if new_value is None else validate(new_value)`). -/
+propagates and nothing is announced.  When `write_<p>` returns `None` the validated argument is announced
+(line 189 after the repair: `new_value = validate(value if new_value is None else new_value)`). -/
 def writeEv {V E : Type} (o : Oracle V E) (raw : V) (checksOk : Bool) (w : WriteRes V) : Option (Ev V E) :=
   match o.valid raw with
   | .error _ => Option.none
@@ -159,7 +159,7 @@ def writeEv {V E : Type} (o : Oracle V E) (raw : V) (checksOk : Bool) (w : Write
     if !checksOk then Option.none else
     match w with
     | .absent => some (.value nv false)
-    | .none => some (.value raw false)
+    | .none => some (.value nv false)
     | .returns v => match o.valid v with
       | .ok v' => some (.value v' false)
       | .error _ => Option.none
@@ -168,6 +168,10 @@ def writeEv {V E : Type} (o : Oracle V E) (raw : V) (checksOk : Bool) (w : Write
 
 /-- `Parameter.__set__`: `obj.announceUpdate(self.name, value)` -/
 def assignEv {V E : Type} (v : V) : Ev V E := .value v true
+
+/-- NOT part of the funnel: `PersistentMixin.loadParameters` (`frappy/persistent.py:121-124`) assigns
+`pobj.value = value; pobj.readerror = None` directly, without lock, time stamp or notification -/
+def poke {V E : Type} (e : Entry V E) (v : V) : Entry V E := { e with value := v, readerror := none }
 
 /-! ### sequential histories -/
 
